@@ -15,6 +15,7 @@
 //	valid-rejected                   a schema that follows every rule was rejected
 //	mutant-accepted:<rule>           a schema that breaks the named rule was accepted
 //	error-does-not-name:<element>    the error message does not mention the offending element
+//	lexerr-accepted                  the compiler succeeded although a source file has a lexical error
 //	go-build-fails                   the compiler succeeded but the Go compiler rejects its output
 package main
 
@@ -305,6 +306,15 @@ func run() int {
 				if e, p, h := generate(filepath.Join(src, dep), filepath.Join(mod, goDst(j, dep)), []string{src}); e != nil || p != "" || h {
 					// a dependency the root does not import may be invalid on purpose: leave it out
 					os.RemoveAll(filepath.Join(mod, goDst(j, dep)))
+				}
+			}
+		}
+		if j.accepted {
+			// "never exits successfully after a lexical error"
+			for _, text := range j.files[rootPkg] {
+				if _, errs := verifhooks.ScanTokens(text); errs > 0 {
+					j.viol = append(j.viol, "lexerr-accepted")
+					break
 				}
 			}
 		}
